@@ -487,8 +487,8 @@ NEG = {"eq0": "ne0", "ne0": "eq0", "lt0": "ge0", "ge0": "lt0", "le0": "gt0", "gt
 
 
 def negate_key(k: str) -> str:
-    tag, rest = k.split("[", 1)
-    return NEG.get(tag, "not-" + tag) + "[" + rest if tag in NEG else f"not[{k}]"
+    from .symb import negate_key as _nk
+    return _nk(k)
 
 
 def guard_atoms(da: "DivAnalysis", node: Node, resolved=True) -> List[str]:
